@@ -39,9 +39,12 @@ def expected_stream(chunks, kind):
     serial = 0
     for c in chunks:
         for _ in range(c):
-            out += serial.to_bytes(4, "little")
             if kind.startswith("packet"):
-                out += b"\n"
+                # Packets are big endian (packet 10 ends in 0x0a itself), each
+                # followed by a newline.
+                out += serial.to_bytes(4, "big") + b"\n"
+            else:
+                out += serial.to_bytes(4, "little")
             serial += 1
     return out
 
@@ -138,6 +141,8 @@ def c17_kill(rep, tmp, tier, only=None):
     # for one work() call to find more than 64 Ki samples waiting.
     configs.append(("packet-burst", "overwrite", [3, 1, 4]))
     configs.append(("packet-burst", "append", [2, 5]))
+    # Enough packets for one that ends in a newline byte (packet 10).
+    configs.append(("packet", "overwrite", [11, 1]))
     configs.append(("stream-big", "overwrite", [100000, 3, 70000]))
     for kind, mode, chunks in configs:
         if only and (only["kind"], only["mode"], only["chunks"]) != (kind, mode, chunks):
